@@ -95,6 +95,7 @@ func plan(tier string, seed int64) []driver.Case {
 	cases = append(cases, twicePlan(tier)...)
 	cases = append(cases, rotationPlan(tier)...)
 	cases = append(cases, outagePlan(tier)...)
+	cases = append(cases, manyKeysPlan(tier)...)
 	return cases
 }
 
@@ -444,6 +445,9 @@ func runAlone(p params, em []emission) ([]int, bool) {
 // ---------------------------------------------------------------- one case
 
 func runCase(c driver.Case) driver.Result {
+	if c.Get("kind") == "manykeys" {
+		return runManyKeys(c)
+	}
 	if c.Get("kind") == "outage" {
 		return runOutage(c)
 	}
@@ -746,7 +750,7 @@ func main() {
 	driver.Main(driver.Property{
 		ID:    "C20",
 		Level: "exploration",
-		Rule:  "limiter {native NewRateLimiter(count, interval, key), ulule NewRateLimiter(limiter over a fresh in-memory store, key)} × quota {1,2,3} × window {20 ms, 40 ms, 1 h; thorough adds 5 ms for the clock-free oracles} × timeline {one burst, 3–4 bursts 1.5 w apart, steady with gap w/(2q), sparse with gap 2w} × seeded repetitions drawing 1–4 keys (uniform / 70 % on one key), the source {scripted synchronous (emits inside Subscribe), scripted asynchronous (goroutine with sleeps), ro.FromSlice} and the ending {complete, error, Unsubscribe after the last item, Unsubscribe in mid-stream}. Items are {Key, Seq}; the harness timestamps each emission just before Next (tb) and each delivery at observer entry (td). Oracles: (1) per key the delivered items are an order-preserving duplicate-free subsequence of the emitted ones; (2) windows ≥ 20 ms: for all i ≤ j of a key's delivered list, j−i+1 ≤ q·(⌊(td(j)−tb(i))/w⌋+2); (3) 1-hour window: each key gets exactly its first q items (native: Take(q) of the only window; ulule memory store: Reached ⇔ count > Limit, one counter per key), with a single-key control run to tell dependence between keys from a wrong count; (4) completion / the source's error value reach the output, a missing terminal being decided by a blocked-process proof; (5) grammar, source subscribed once and released after the end or after Unsubscribe, nothing delivered of an emission begun after Unsubscribe returned. Half of the cases add a 300 µs pause (delay only, on the emitting goroutine) at WindowWhen's unlock-then-emit hook point. Native limiter only: when formula (2) fires, the window boundaries recorded at the hook point window.flush.unlocked are consulted; if one Interval goroutine really processed enough boundaries inside the span (B boundaries ⇒ at most B+2 windows ⇒ q·(B+2) items) and none of them came before n·w, the case is reported INCONCLUSIVE (windows compressed by ticks processed late), otherwise VIOLATED. Non-trivial: at least one item passed. Also ulule-shared: one ulule limiter (1-hour window) in front of 2-8 streams fed concurrently from a spin barrier, 30 rounds: per key exactly `limit` items pass, summed over the streams.",
+		Rule:  "limiter {native NewRateLimiter(count, interval, key), ulule NewRateLimiter(limiter over a fresh in-memory store, key)} × quota {1,2,3} × window {20 ms, 40 ms, 1 h; thorough adds 5 ms for the clock-free oracles} × timeline {one burst, 3–4 bursts 1.5 w apart, steady with gap w/(2q), sparse with gap 2w} × seeded repetitions drawing 1–4 keys (uniform / 70 % on one key), the source {scripted synchronous (emits inside Subscribe), scripted asynchronous (goroutine with sleeps), ro.FromSlice} and the ending {complete, error, Unsubscribe after the last item, Unsubscribe in mid-stream}. Items are {Key, Seq}; the harness timestamps each emission just before Next (tb) and each delivery at observer entry (td). Oracles: (1) per key the delivered items are an order-preserving duplicate-free subsequence of the emitted ones; (2) windows ≥ 20 ms: for all i ≤ j of a key's delivered list, j−i+1 ≤ q·(⌊(td(j)−tb(i))/w⌋+2); (3) 1-hour window: each key gets exactly its first q items (native: Take(q) of the only window; ulule memory store: Reached ⇔ count > Limit, one counter per key), with a single-key control run to tell dependence between keys from a wrong count; (4) completion / the source's error value reach the output, a missing terminal being decided by a blocked-process proof; (5) grammar, source subscribed once and released after the end or after Unsubscribe, nothing delivered of an emission begun after Unsubscribe returned. Half of the cases add a 300 µs pause (delay only, on the emitting goroutine) at WindowWhen's unlock-then-emit hook point. Native limiter only: when formula (2) fires, the window boundaries recorded at the hook point window.flush.unlocked are consulted; if one Interval goroutine really processed enough boundaries inside the span (B boundaries ⇒ at most B+2 windows ⇒ q·(B+2) items) and none of them came before n·w, the case is reported INCONCLUSIVE (windows compressed by ticks processed late), otherwise VIOLATED. Non-trivial: at least one item passed. Also manykeys/*: 300 / 1000 (thorough 4000) distinct keys of four shapes, q+2 items each, in one 1-hour window, emitted key by key, round-robin or shuffled: every key gets exactly its own first q items. Also ulule-shared: one ulule limiter (1-hour window) in front of 2-8 streams fed concurrently from a spin barrier, 30 rounds: per key exactly `limit` items pass, summed over the streams.",
 		Assume: []string{
 			"machine load can only delay emissions and deliveries: time is used only as a lower bound of the number of windows a span can touch",
 			"native limiter: the quota bound q·(⌊L/w⌋+2) presumes that the Interval ticks cutting the windows are processed less than one window late (windows ≥ 20 ms, instantaneous consumer); the lag of a 1 ms ticker goroutine is measured alongside (max_probe_lag_us) and reported with any alarm",
